@@ -518,7 +518,7 @@ class GenWalker:
                     raise AnalysisError(f"{self.construct}: {ast.unparse(node)[:60]}: {type(err).__name__}") from err
             if attr == "generate":
                 return self.generate_call(base, args, node)
-            if isinstance(base, Obj) and base.cls and base is env.get("self") and attr not in ("build_optimized_pattern", "tag_str", "__str__", "_pattern", "children", "with_children"):
+            if isinstance(base, Obj) and base.cls and (base is env.get("self") or getattr(base, "record", False)) and attr not in ("build_optimized_pattern", "tag_str", "__str__", "_pattern", "children", "with_children"):
                 # a helper method of the node itself: one that is handed the Builder emits code and must be followed;
                 # a pure one (returning what the template branches on) is followed when the model can
                 r = self.repo.resolve_method(base.cls, attr)
@@ -538,6 +538,19 @@ class GenWalker:
                             pass
             if isinstance(base, (Obj, _Super)):
                 return Opaque(ast.unparse(node), "str" if attr in ("build_optimized_pattern", "tag_str") else None)
+        if isinstance(f, str) and isinstance(node.func, ast.Name):
+            rec = self._record_class(f)
+            if rec is not None:
+                # a small record class of the package (NamedTuple / dataclass without __init__): its fields, by name
+                fields = rec
+                if len(args) > len(fields) or any(k not in fields for k in kwargs):
+                    raise AnalysisError(f"{self.construct}: {f}() takes {fields}")
+                attrs = dict(zip(fields, args))
+                attrs.update(kwargs)
+                if len(attrs) == len(fields):
+                    o = Obj(f, attrs, f"record {f}")
+                    o.record = True  # type: ignore[attr-defined]
+                    return o
         if isinstance(f, str) and f in self.repo.mod(self._cur_rel).functions() and f not in ("version",):
             fn = self.repo.mod(self._cur_rel).functions()[f]
             return self.inline(self._cur_rel, None, fn, args, kwargs)
@@ -589,6 +602,20 @@ class GenWalker:
             if f in ("version",):
                 return Opaque(ast.unparse(node), "str")
         return Opaque(ast.unparse(node), "str" if fsrc.startswith("re.escape") else None)
+
+    def _record_class(self, name: str) -> list[str] | None:
+        """The field names of a NamedTuple / dataclass of the package called `name` (None for anything else)."""
+        ent = self.repo.class_table.get(name)
+        if not ent:
+            return None
+        c = ent[1]
+        is_nt = any(ast.unparse(b).split(".")[-1] == "NamedTuple" for b in c.bases)
+        is_dc = any(ast.unparse(d).split("(")[0].split(".")[-1] == "dataclass" for d in c.decorator_list)
+        if not (is_nt or is_dc) or any(isinstance(n, ast.FunctionDef) and n.name == "__init__" for n in c.body):
+            return None
+        if self.repo.is_subclass(name, "Expression"):
+            return None
+        return [n.target.id for n in c.body if isinstance(n, ast.AnnAssign) and isinstance(n.target, ast.Name)]
 
     def gen_call(self, g: Gen, attr: str, args: list, kwargs: dict, node: ast.Call) -> object:
         if attr == "writeln":
